@@ -24,7 +24,17 @@ use barter_instrument::{
     Side, Underlying,
     asset::{QuoteAsset, name::AssetNameExchange},
     exchange::ExchangeId,
-    instrument::{Instrument, name::InstrumentNameExchange},
+    instrument::{
+        Instrument,
+        kind::{
+            InstrumentKind,
+            future::FutureContract,
+            option::{OptionContract, OptionExercise, OptionKind},
+            perpetual::PerpetualContract,
+        },
+        name::InstrumentNameExchange,
+        quote::InstrumentQuoteAsset,
+    },
 };
 use chrono::{DateTime, TimeZone, Utc};
 use fnv::FnvHashMap;
@@ -81,6 +91,19 @@ struct OrdIn {
     filled: Decimal,
 }
 
+/// kind of an instrument: 0 spot, 1 perpetual, 2 future, 3 option; contract size; settlement asset
+#[derive(Clone, Debug)]
+struct KindIn {
+    kind: u64,
+    cs: Decimal,
+    settle: u64,
+}
+impl KindIn {
+    fn spot() -> Self {
+        KindIn { kind: 0, cs: Decimal::ONE, settle: 0 }
+    }
+}
+
 #[derive(Clone, Debug)]
 struct Setup {
     exchange: u64,
@@ -88,6 +111,7 @@ struct Setup {
     latency: u64,
     seq0: u64,
     instruments: Vec<(u64, u64, u64)>, // instrument, base, quote
+    kinds: Vec<KindIn>,                // same length as `instruments`
     balances: Vec<BalIn>,
     open: Vec<OrdIn>,
     canc: Vec<OrdIn>,
@@ -182,7 +206,7 @@ fn ord_from(v: &Value) -> OrdIn {
 fn setup_json(s: &Setup) -> Value {
     json!({
         "exchange": s.exchange, "fee": s.fee.to_string(), "latency": s.latency, "seq0": s.seq0,
-        "instruments": s.instruments.iter().map(|(i, b, q)| json!({"i": i, "b": b, "q": q})).collect::<Vec<_>>(),
+        "instruments": s.instruments.iter().zip(s.kinds.iter()).map(|((i, b, q), k)| json!({"i": i, "b": b, "q": q, "kind": k.kind, "cs": k.cs.to_string(), "settle": k.settle})).collect::<Vec<_>>(),
         "balances": s.balances.iter().map(|b| json!({"a": b.asset, "total": b.total.to_string(), "free": b.free.to_string(), "t": b.t})).collect::<Vec<_>>(),
         "open": s.open.iter().map(ord_json).collect::<Vec<_>>(),
         "canc": s.canc.iter().map(ord_json).collect::<Vec<_>>(),
@@ -199,6 +223,16 @@ fn setup_from(v: &Value) -> Setup {
             .unwrap()
             .iter()
             .map(|x| (x["i"].as_u64().unwrap(), x["b"].as_u64().unwrap(), x["q"].as_u64().unwrap()))
+            .collect(),
+        kinds: v["instruments"]
+            .as_array()
+            .unwrap()
+            .iter()
+            .map(|x| KindIn {
+                kind: x["kind"].as_u64().unwrap_or(0),
+                cs: if x["cs"].is_null() { Decimal::ONE } else { json_dec(&x["cs"]) },
+                settle: x["settle"].as_u64().unwrap_or(0),
+            })
             .collect(),
         balances: v["balances"]
             .as_array()
@@ -389,14 +423,38 @@ fn build_exchange(
     let instruments: FnvHashMap<InstrumentNameExchange, Instrument<ExchangeId, AssetNameExchange>> = s
         .instruments
         .iter()
-        .map(|(i, b, q)| {
+        .zip(s.kinds.iter())
+        .map(|((i, b, q), k)| {
+            let expiry = time_of(4_102_444_800_000); // 2100-01-01
+            let kind = match k.kind {
+                0 => InstrumentKind::Spot,
+                1 => InstrumentKind::Perpetual(PerpetualContract {
+                    contract_size: k.cs,
+                    settlement_asset: asset_name(k.settle),
+                }),
+                2 => InstrumentKind::Future(FutureContract {
+                    contract_size: k.cs,
+                    settlement_asset: asset_name(k.settle),
+                    expiry,
+                }),
+                _ => InstrumentKind::Option(OptionContract {
+                    contract_size: k.cs,
+                    settlement_asset: asset_name(k.settle),
+                    kind: if i % 2 == 0 { OptionKind::Call } else { OptionKind::Put },
+                    exercise: OptionExercise::European,
+                    expiry,
+                    strike: Decimal::from(100),
+                }),
+            };
             (
                 instr_name(*i),
-                Instrument::spot(
+                Instrument::new(
                     ex,
                     format!("{}-i{i}", ex.as_str()),
                     format!("i{i}"),
                     Underlying { base: asset_name(*b), quote: asset_name(*q) },
+                    InstrumentQuoteAsset::UnderlyingQuote,
+                    kind,
                     None,
                 ),
             )
@@ -451,10 +509,20 @@ fn coq_ord(o: &OrdIn) -> String {
 }
 fn coq_cfg(s: &Setup) -> String {
     format!(
-        "(mkCfg {} {} {})",
+        "(mkCfg {} {} {} {})",
         list(&s.instruments.iter().map(|(i, b, q)| pair(&nn(*i), &pair(&nn(*b), &nn(*q)))).collect::<Vec<_>>()),
         qc(s.fee),
-        nn(s.latency)
+        nn(s.latency),
+        list(
+            &s.instruments
+                .iter()
+                .zip(s.kinds.iter())
+                .map(|((i, _, _), k)| {
+                    let settle = if k.kind == 0 { "None".to_string() } else { format!("(Some {})", nn(k.settle)) };
+                    pair(&nn(*i), &format!("(mkKind {} {} {})", nn(k.kind), qc(k.cs), settle))
+                })
+                .collect::<Vec<_>>()
+        )
     )
 }
 fn coq_init(s: &Setup) -> String {
@@ -1260,10 +1328,34 @@ fn gen_setup(r: &mut Rng, c: Cls, adversarial: bool) -> Setup {
     r.shuffle(&mut pool);
     let n_instr = 1 + r.below(4.min(pool.len() as u64));
     let mut instruments: Vec<(u64, u64, u64)> = vec![];
-    let mut next_i = r.below(3);
-    for (b, q) in pool.into_iter().take(n_instr as usize) {
-        instruments.push((next_i, b, q));
-        next_i += 1 + r.below(2);
+    let mut kinds: Vec<KindIn> = vec![];
+    // exchange names "i<n>": either small consecutive numbers or numbers sharing a prefix
+    let ids: Vec<u64> = if r.chance(1, 3) {
+        let mut v = vec![1u64, 10, 11, 100, 101, 110];
+        r.shuffle(&mut v);
+        v
+    } else {
+        let mut next_i = r.below(3);
+        (0..6)
+            .map(|_| {
+                let x = next_i;
+                next_i += 1 + r.below(2);
+                x
+            })
+            .collect()
+    };
+    for (k, (b, q)) in pool.into_iter().take(n_instr as usize).enumerate() {
+        instruments.push((ids[k], b, q));
+        // spot / perpetual / future / option; contract size 1, 0.01, 0.001 or 100; settlement in
+        // the quote asset or in another one
+        let kind = *r.pick(&[0u64, 0, 1, 1, 2, 3]);
+        let cs = if kind == 0 {
+            Decimal::ONE
+        } else {
+            *r.pick(&[Decimal::ONE, mk_dec(1, 2), mk_dec(1, 3), mk_dec(100, 0)])
+        };
+        let settle = if r.chance(1, 2) { q } else { r.below(n_assets) };
+        kinds.push(if kind == 0 { KindIn::spot() } else { KindIn { kind, cs, settle } });
     }
     let fee = if adversarial && r.chance(1, 8) { -gen_fee(r, c) } else { gen_fee(r, c) };
     let mut balances: Vec<BalIn> = vec![];
@@ -1306,6 +1398,7 @@ fn gen_setup(r: &mut Rng, c: Cls, adversarial: bool) -> Setup {
         latency: *r.pick(&[0u64, 1, 2, 5, 7, 10, 100, 251]),
         seq0: if r.chance(1, 4) { r.below(1_000_000) } else { 0 },
         instruments,
+        kinds,
         balances,
         open,
         canc,
@@ -1623,8 +1716,16 @@ fn gen_run_case_once(r: &mut Rng, max_reqs: u64, adversarial: bool) -> (Setup, V
 /// fee {0, >0} x price {0, >0} x quantity {0, >0, <0} x account shape {ok, total != free on the
 /// spent asset, total != free elsewhere, spent asset has no balance}.
 fn table(em: &mut Emitter) {
-    // i0: a0/a1, i1: a2/a1 (shares quote), i2: a1/a0 (i0 reversed)
-    let instruments = vec![(0u64, 0u64, 1u64), (1, 2, 1), (2, 1, 0)];
+    // i0: a0/a1 perpetual (contract size 0.01, settled in the quote), i1: a2/a1 option (shares the
+    // quote; contract size 100), i2: a1/a0 future (i0 reversed; contract size 100, settled in a2),
+    // i10: a0/a1 spot (same pair as i0, name sharing its prefix)
+    let instruments = vec![(0u64, 0u64, 1u64), (1, 2, 1), (2, 1, 0), (10, 0, 1)];
+    let kinds = vec![
+        KindIn { kind: 1, cs: mk_dec(1, 2), settle: 1 },
+        KindIn { kind: 3, cs: mk_dec(100, 0), settle: 1 },
+        KindIn { kind: 2, cs: mk_dec(100, 0), settle: 2 },
+        KindIn::spot(),
+    ];
     let other = mk_dec(777, 1);
     let mut cid = 0;
     for market in [true, false] {
@@ -1640,7 +1741,7 @@ fn table(em: &mut Emitter) {
                                         continue;
                                     }
                                     cid += 1;
-                                    let instr = if known { *[0u64, 2].get((cid % 2) as usize).unwrap() } else { 9 };
+                                    let instr = if known { *[0u64, 2, 10].get((cid % 3) as usize).unwrap() } else { 9 };
                                     let req = Req { instr, strategy: cid % 3, cid, buy, price, qty, market, tif: cid % 5 };
                                     let (b, q) = if instr == 2 { (1u64, 0u64) } else { (0, 1) };
                                     let spent = if buy { q } else { b };
@@ -1675,6 +1776,7 @@ fn table(em: &mut Emitter) {
                                         latency: 10,
                                         seq0: cid % 7,
                                         instruments: instruments.clone(),
+                                        kinds: kinds.clone(),
                                         balances,
                                         open: vec![],
                                         canc: vec![],
